@@ -10,5 +10,5 @@ if [ "$seed" != "-" ]; then
 fi
 mkdir -p $tmp/out
 export GOFLAGS=-mod=mod GOPROXY=off GOSUMDB=off GOTOOLCHAIN=local GOWORK=off VERIF_DIR=$here GBCHECK_REPO=$tmp/repo GBCHECK_OUT=$tmp/out
-if [ -n "$full" ]; then $here/bin/gbcheck multi $checks quick 2>&1 | cut -c1-400
-else $here/bin/gbcheck multi $checks quick 2>&1 | grep -E "^  [^ ]|^RESULT|quick:" | cut -c1-260; fi
+if [ -n "$full" ]; then ${GBCHECK_BIN:-$here/bin/gbcheck} multi $checks quick 2>&1 | cut -c1-400
+else ${GBCHECK_BIN:-$here/bin/gbcheck} multi $checks quick 2>&1 | grep -E "^  [^ ]|^RESULT|quick:" | cut -c1-260; fi
